@@ -38,6 +38,7 @@ type FuncSpec struct {
 	HasAssigns bool
 	NoPanic    []string
 	HasNoPanic bool
+	Except     []string // safety obligations (kind#ordinal) explicitly not claimed, with a stated reason
 	Pure       bool
 	Loops      map[int]*LoopSpec
 	Where      string
@@ -71,7 +72,7 @@ type Specs struct {
 	Scan    []string // mechanical scan hits for assume/trusted
 }
 
-var clauseRe = regexp.MustCompile(`^(requires|ensures|invariant|decreases|nopanic|assigns|pure|loop|func|spec|order-independent|trusted|table|row|exact)\b(\[[A-Z0-9, ]*\])?\s*(.*)$`)
+var clauseRe = regexp.MustCompile(`^(requires|ensures|invariant|decreases|nopanic|assigns|pure|loop|func|spec|order-independent|trusted|table|row|exact|except)\b(\[[A-Z0-9, ]*\])?\s*(.*)$`)
 
 func parseProps(s string) []string {
 	s = strings.Trim(s, "[]")
@@ -246,8 +247,33 @@ func (sp *Specs) loadFile(path string) {
 				}
 				curLoop.Decreases = cl
 			}
+		case "except":
+			// except <obligation name suffix>, ... : <reason>   (obligations of this function that are NOT claimed)
+			if cur != nil {
+				ex := rest
+				if j := strings.Index(ex, " : "); j >= 0 {
+					ex = ex[:j]
+				}
+				for _, it := range strings.Split(ex, ",") {
+					if it = strings.TrimSpace(it); it != "" {
+						cur.Except = append(cur.Except, it)
+					}
+				}
+			}
 		case "nopanic":
 			if cur != nil {
+				// nopanic[Cxx] except index#2, nilfunc#1 : <reason>
+				if i := strings.Index(rest, "except"); i >= 0 {
+					ex := rest[i+len("except"):]
+					if j := strings.Index(ex, ":"); j >= 0 {
+						ex = ex[:j]
+					}
+					for _, it := range strings.Split(ex, ",") {
+						if it = strings.TrimSpace(it); it != "" {
+							cur.Except = append(cur.Except, it)
+						}
+					}
+				}
 				cur.HasNoPanic = true
 				cur.NoPanic = append(cur.NoPanic, props...)
 				for _, p := range props {
@@ -1327,6 +1353,22 @@ func (e *specEnv) evalCall(x *SX) (Val, types.Type, error) {
 			return Val{}, nil, err
 		}
 		return Val{T: e.pathMatch(p, pat), S: SBool}, nil, nil
+	case "deref":
+		a, at, err := arg(0)
+		if err != nil {
+			return Val{}, nil, err
+		}
+		if at == nil {
+			at = a.GT
+		}
+		if a.S != SInt || at == nil {
+			return Val{}, nil, fmt.Errorf("deref of a non-pointer")
+		}
+		if _, ok := types.Unalias(at).Underlying().(*types.Pointer); !ok {
+			return Val{}, nil, fmt.Errorf("deref of a non-pointer")
+		}
+		pl := c.placeOfPointer(Val{T: a.T, S: SInt}, at)
+		return Val{T: c.loadPlaceIn(e.st, pl), S: pl.Sort, GT: pl.GoType}, pl.GoType, nil
 	case "closurefn", "closurerecv":
 		a, _, err := arg(0)
 		if err != nil {
@@ -1468,6 +1510,11 @@ func (c *FnCtx) mapLen(st map[string]string, mt types.Type, m string) string {
 	_, dhn, ks, _, _ := c.M.MapHeaps(mt)
 	fn := "maplen_" + mangle(string(ks))
 	c.declareFun(fn, []Sort{Sort("(Array " + string(ks) + " Bool)")}, SInt)
+	if !c.ufs["ax|"+fn] {
+		c.ufs["ax|"+fn] = true
+		c.gfact(fmt.Sprintf("(forall ((d (Array %s Bool))) (! (>= (%s d) 0) :pattern ((%s d))))", ks, fn, fn))
+		c.gfact(fmt.Sprintf("(forall ((d (Array %s Bool)) (k %s)) (! (=> (select d k) (> (%s d) 0)) :pattern ((%s d) (select d k))))", ks, ks, fn, fn))
+	}
 	d := c.heapIn(st, dhn)
 	return fmt.Sprintf("(ite (= %s 0) 0 (%s (select %s %s)))", m, fn, d, m)
 }
